@@ -308,9 +308,11 @@ func thorough(prop, repo, verif string, r *Report, f checkFunc, p *Program) {
 		regress = append(regress, res)
 	}
 	// (4) silence on behaviour-preserving refactorings: every patch under
-	// refactors/ is applied to a scratch copy; this property's analysis must
-	// report nothing there
-	refs, _ := filepath.Glob(filepath.Join(verif, "refactors", "*", "patch.diff"))
+	// refactors/ written for this property is applied to a scratch copy; this
+	// property's analysis must report nothing there
+	// (the refactorings written for this property; that every check stays silent on
+	// every refactoring is what tools/sweep_refactors.sh records in refactors/RESULTS.md)
+	refs, _ := filepath.Glob(filepath.Join(verif, "refactors", prop+"-*", "patch.diff"))
 	sort.Strings(refs)
 	var silent []map[string]interface{}
 	nRef, nSilent := 0, 0
